@@ -35,6 +35,8 @@ def rule_full_data(ctx):
         cl = T.strip(a[1])
         modular = False
         reads_seq = False
+        casts = []
+        keyform = "?"
         if cl[0] == "agg" and cl[1] == "closure" and cl[2] in P.bodies:
             cb = P.bodies[cl[2]]
             for i, j, s in cb.iter_stmts():
@@ -43,14 +45,26 @@ def rule_full_data(ctx):
                     for pl in ([r["p"]] if r["k"] in ("ref",) else []) + ([(r["o"].get("c") or r["o"].get("m"))] if r["k"] == "use" and ("c" in r["o"] or "m" in r["o"]) else []):
                         if pl and any(isinstance(x, dict) and x.get("n") == "sequence" for x in pl["pr"]):
                             reads_seq = True
-                    if r["k"] == "cast" and r["ty"] in ("i32", "i64") :
-                        modular = True
+                    if r["k"] == "cast":
+                        casts.append(r["ty"])
             for _, ct in cb.calls():
                 n = callee_of(ct)
                 if any(k in n for k in ("wrapping_sub", "overflowing_sub", "checked_sub")):
                     modular = True
+            # the ordering key as written (part of the finding's identity: another non-modular key is another defect)
+            CS = T.Slicer(cb, P)
+            rs = TB.return_sites(cb, P)
+            if rs:
+                kt = T.strip(rs[0][2])
+                flds = [x[2] for x in T.walk(kt) if x[0] == "field" and isinstance(x[2], str)]
+                keyform = ".".join(flds[:2]) or T.pp(kt)[:30]
+                if casts:
+                    keyform += " as " + ",".join(casts)
+                ops = sorted({x[1] for x in T.walk(kt) if x[0] == "binop"} | {T.short(x[1]).split("::")[-1] for x in T.calls_in(kt)})
+                if ops:
+                    keyform += " via " + ",".join(ops)
         ctx.check(reads_seq, "R1", "get_full_data:sort-key", "segments ordered by their sequence field", "sort key does not read TcpData.sequence", ctx.loc(b, blk))
-        ctx.check(modular, "R1", "get_full_data:modular-order",
+        ctx.check(modular, "R1", "get_full_data:modular-order:key=" + keyform,
                   "ordering key is relative to a base sequence (modular difference)",
                   "segments are ordered by the raw u32 sequence number: when the sequence space wraps inside the stream (ISN within one stream length of 2^32) "
                   "later bytes sort before earlier ones and the head is never parsed", ctx.loc(b, blk))
